@@ -416,6 +416,18 @@ def _close_only_on_eof(ctx, rep):
     rep.floor("R13.11", "closing handlers in Connection.serve", n_h, 2)
 
 
+class _State(dict):
+    """fields of the model connection; a private method the index no longer lists (a dissolved helper handed to spawn() as a
+    thread target) is an opaque callable - the model never runs the threads"""
+    def __contains__(self, k):
+        return dict.__contains__(self, k) or (isinstance(k, str) and k.startswith("_") and not k.startswith("__"))
+
+    def __getitem__(self, k):
+        if dict.__contains__(self, k):
+            return dict.__getitem__(self, k)
+        return lambda *a, **kw: None
+
+
 def _serve_threaded_model(ctx, rep):
     """R13.14: Connection.serve_threaded(n) evaluated with a model `spawn` (records the order of events, returns a thread object
     whose join() records too): all n serving threads exist before the first join() - a request that blocks in its handler then
@@ -447,10 +459,11 @@ def _serve_threaded_model(ctx, rep):
                 return t
             hooks = {"spawn": spawn_, "self.close": lambda *a: ev.append(("close",)),
                      "threading.Thread": lambda *a, **k: (_ for _ in ()).throw(AnalysisError("serve_threaded builds Thread objects itself"))}
-            extra = {"__calls__": hooks, "__max_iter__": 100, "__globals__": {}}
+            cm_ = {n_: m_.node for n_, m_ in ctx.cls(K.CONN).methods.items() if n_ not in ("serve_threaded", "close", "serve")}
+            extra = {"__calls__": hooks, "__max_iter__": 100, "__globals__": {}, "__methods__": cm_}
             extra["__global_lookup__"] = K.module_function_lookup(ctx, f.module, extra)
             try:
-                MI.call_method(f.node, {"closed": False}, [n], extra)
+                MI.call_method(f.node, _State({"closed": False}), [n], extra)
             except MI.Raised as r_:
                 bad.append("serve_threaded(%d) raises %s" % (n, r_.name))
                 continue
